@@ -20,7 +20,7 @@ func init() {
 	Registry["C18"] = Spec{
 		Fn:          c18,
 		Level:       "exploration",
-		Rule:        "pairs (block schema, target list) over a pool of ~120 types (every catalogue type plus boxed compositions): equal, permuted, renamed, extra/missing column, one type swapped for every other pool type (thorough: all ordered pairs), zero-row header blocks with/without targets, blank target names, sequences of 2..4 blocks with changing schemas against the same targets, typed / single ResultColumn / AutoResult targets, inferable targets (Enum, DateTime zone, DateTime64 precision/zone, Array/Nullable/Map/Tuple of them). Blocks are reference-encoded with per-column unique values. Oracle: reference compatibility relation (compatible -> decodes to the block's values; incompatible -> error naming the column/index; unspecified -> no panic, no foreign data); after any failure every target holds only rows of its own matching column. Non-trivial = >=2 columns or a parameterised type; distinct = (schema, targets, mutation)",
+		Rule:        "pairs (block schema, target list) over a pool of ~120 types (every catalogue type plus boxed compositions): equal, permuted, renamed, extra/missing column, one type swapped for every other pool type (thorough: all ordered pairs), Map / Tuple / Array(Map) pairs that differ in one inner position behind plain and parameterised first elements, zero-row header blocks with/without targets, blank target names, sequences of 2..4 blocks with changing schemas against the same targets, typed / single ResultColumn / AutoResult targets, inferable targets (Enum, DateTime zone, DateTime64 precision/zone, Array/Nullable/Map/Tuple of them). Blocks are reference-encoded with per-column unique values. Oracle: reference compatibility relation (compatible -> decodes to the block's values; incompatible -> error naming the column/index; unspecified -> no panic, no foreign data); after any failure every target holds only rows of its own matching column. Non-trivial = >=2 columns or a parameterised type; distinct = (schema, targets, mutation)",
 		Assumptions: []string{"reference compatibility relation as in C19", "block columns carry unique values so ownership of a row is decidable"},
 		MinDistinct: 300,
 	}
@@ -120,7 +120,7 @@ func c18Check(r *core.Run, what string, cols []c18Col, rows int, data []byte, ta
 			if normType(cols[i].T) != normType(targets[i].T) {
 				viaEquivalence = true
 			}
-			conf, ok := refConflict(cols[i].T, targets[i].T)
+			conf, ok := refConflictEnum(cols[i].T, targets[i].T, strings.Contains(targets[i].Col.Kind(), "ColEnum("))
 			if !ok {
 				specified = false
 				break
@@ -247,6 +247,57 @@ func c18(r *core.Run) {
 			c18Check(r, "type-swap", cols, rows, data, targets, cs)
 			if i == j && i%20 == 0 {
 				r.Sample(cs)
+			}
+		}
+	}
+	// ---- composites that differ in one inner position only (boxed targets): Map / Tuple / Array
+	// of Map behind plain and parameterised first elements ----
+	{
+		keys := []string{"String", "LowCardinality(String)", "DateTime64(3)", "Enum8('a' = 1, 'b' = 2)", "Decimal(9, 2)", "FixedString(4)", "Nullable(Int32)"}
+		vals := []string{"Int64", "UInt64", "String", "Array(String)", "Nullable(Int64)", "Float64"}
+		var fam [][]string
+		for _, k := range keys {
+			var m, t, am []string
+			for _, v := range vals {
+				m = append(m, "Map("+k+", "+v+")")
+				t = append(t, "Tuple("+k+", "+v+")")
+				am = append(am, "Array(Map("+k+", "+v+"))")
+			}
+			fam = append(fam, m, t, am)
+		}
+		boxed := func(ts string) (val.Entry, bool) {
+			t, err := ref.ParseType(ts)
+			if err != nil {
+				return val.Entry{}, false
+			}
+			if _, err := val.Build(t, rand.New(rand.NewSource(1)).Intn); err != nil {
+				return val.Entry{}, false
+			}
+			return val.Entry{Type: ts, Kind: "boxed", New: func() val.LibCol { c, _ := val.Build(t, rand.New(rand.NewSource(1)).Intn); return c }}, true
+		}
+		for fi, f := range fam {
+			for i := range f {
+				for j := range f {
+					ci++
+					if !r.Take(ci) {
+						continue
+					}
+					ei, ok1 := boxed(f[i])
+					ej, ok2 := boxed(f[j])
+					if !ok1 || !ok2 {
+						r.Count("inner_position_pairs_skipped", 1)
+						continue
+					}
+					rng := r.Rand(ci, "inner")
+					rows := []int{1, 3}[rng.Intn(2)]
+					cols := []c18Col{mkCol(ei, "a"), mkCol(pool[(fi+5)%len(pool)], "b")}
+					data := c18Block(rng, cols, rows)
+					targets := []c18Target{mkTarget(ej, "a"), mkTarget(pool[(fi+5)%len(pool)], "b")}
+					cs := map[string]any{"block": []string{cols[0].TS, cols[1].TS}, "targets": []string{targets[0].TS, targets[1].TS}, "rows": rows, "target_kinds": []string{targets[0].Col.Kind()}}
+					r.Eval()
+					r.NonTrivial("inner", f[i], f[j], rows)
+					c18Check(r, "inner-position-swap", cols, rows, data, targets, cs)
+				}
 			}
 		}
 	}
